@@ -40,6 +40,15 @@ def run(chk):
     shadow_coherence(chk, prog, names)
     refresh_covers_banks(chk, prog, names)
     beam_relative(chk, prog, names)
+    # the beam position the renderer works from is the controller's frame clock *after* the wait just performed: the
+    # '/screen-gets-clock' obligation of C05's walk of wait_internal (both machines)
+    from . import c05
+    from zx.report import FilteredCheck
+    chk.rule("T-PAIR (shared with C05)", "wait_internal hands the advanced frame clock to ZXScreen::process_clocks exactly once on every path")
+    fc = FilteredCheck(chk, lambda k: k.endswith("/screen-gets-clock"), "c05")
+    for m_ in names.machine_variants():
+        c05.wait_internal(fc, prog, names, m_)
+    chk.check(fc.forwarded >= 4, "T-PAIR/ZXController::wait_internal/screen-gets-clock/judged", "judged on %d paths only" % fc.forwarded)
     return chk.finish(EXPL)
 
 
